@@ -59,6 +59,7 @@ def evaluate(spec):
               "opt-order:" + ("offset,resol" if cont.get("offset_first") else "resol,offset"), "blocks-before-idb:%d" % len(cont.get("extra_pre") or []),
               "interfaces:%d%s" % (cont.get("ifaces", 1), "-late" if cont.get("late_idb") and cont.get("ifaces", 1) > 1 else ""),
               "idle-interfaces:%d" % len(cont.get("idle_ifaces") or []), "first-interface:" + ("ethernet" if cont.get("idle_first") is None else "idle-linktype-%d" % cont["idle_first"]),
+              "section-length:" + ("stated" if cont.get("section_length") else "-1"),
               "keys:" + ("file" if not cont.get("keys") else "dsb-only" if not cont["keys"].get("file") else "file+dsb")]
     nontrivial = dims >= 2 and bool(o0.pkts)
     if f1:
@@ -175,6 +176,7 @@ def container(draw):
     c["late_idb"] = draw(st.booleans())
     # the first interface of the file may be one without packets and of another link type (0 = BSD loopback, 113 = Linux cooked)
     c["idle_first"] = draw(st.sampled_from([None, None, None, 0, 113]))
+    c["section_length"] = draw(st.booleans())      # Section Length of the SHB: the real number of bytes, or -1
     if c["ifaces"] == 1:
         # ... or further interfaces without packets, each with time parameters of its own
         c["idle_ifaces"] = [[draw(st.integers(0, 40)), draw(st.sampled_from([6, 9, 3, 0, 0x8A])), draw(st.sampled_from([0, 0, 3600]))]
